@@ -259,6 +259,23 @@ CHECKS = {
              'a raise must be the documented decomposition failure and never occurs when failures are ignored.',
         note=TB + ' The decomposition heuristics are not modelled in Coq; the undecomposed model is tied to the specification by C03.',
         design='§4 C10'),
+    'C05': dict(
+        technique='hand model of the coin stage of biased_randomize_bits, proved (exhaustively per lane, lifted to words) and run against the '
+                  'implementation on the generator\'s own words; theorems on truncation correction, gap sampling and conditional chains; '
+                  'exact outcome distributions from the Coq-extracted specification compared with histograms of all four samplers at 6.5 sigma',
+        text='Proof: exactly p_top_bits of the 256 coin strings give 1 for every p_top_bits < 128 (vm_compute over all strings), and every bit '
+             'lane of the executable word model CoinWord.coin_word is that stage (N.testbit lemma); truncation correction restores p; '
+             'geometric gap sampling is Bernoulli under the geometric-law hypothesis; the conditional-probability chain gives outcome k '
+             'probability exactly p_k; DEPOLARIZE1 as three independent mechanisms. Tie H (exact): for probabilities top/256 and '
+             'complements the extracted brb_exact reproduces the words biased_randomize_bits writes from the same mt19937_64 words. '
+             'Statistical ties (fixed seeds): bit / lane / adjacent-pair / position frequencies over the grid {0, 1e-4, 0.0199, 0.02, 0.3, '
+             '0.5, 0.51, 0.75, 0.9375, 1, ...}; hit statistics of sample_hit_indices; for every noise instruction the exact outcome pmf '
+             'of a probe circuit (Bell-pair decoding of X and Z parts, heralds, flipped results) from Spec.srun + channel tables versus '
+             'histograms of sample_batch_measurements, TableauSimulator, sample_batch_detection_events and DemSampler (against the pmf '
+             'of its model), all W, shot counts not multiples of 64; impossible outcomes must never occur.',
+        note=TB + ' Frequencies are tested, not proved: deviations below the stated resolution are invisible; std::geometric_distribution '
+             'is assumed geometric.',
+        design='§4 C05'),
 }
 
 PENDING = 'check not yet built in this round (see DESIGN.md §7 phasing); the Coq model for it is planned, not claimed'
